@@ -167,10 +167,15 @@ var c13Dead int
 
 // replies arriving right at the deadline: every asker has its own actor, which answers timeout + delta after it received the
 // request (delta swept through zero).  Either outcome is admissible - (F(msg), nil) or (zero, timeout) - but nothing may panic.
-func c13Boundary(w *ndWriter, askers int) int {
+// zero: the timeout is 0 (odd askers: negative) - the deadline has passed before the call began; the asker gets the reply or
+// (zero, ErrActorAskTimeout), and the actor, which replies at once, must go on serving the follow-up request
+func c13Boundary(w *ndWriter, askers int, zero bool) int {
 	rec := &recorder{}
 	rec.ev(E{"ev": "reset", "n": 2*askers + 1})
 	to := 800 * time.Microsecond
+	if zero {
+		to = 0
+	}
 	var wg sync.WaitGroup
 	for a := 1; a <= askers; a++ {
 		a := a
@@ -210,6 +215,10 @@ func c13Boundary(w *ndWriter, askers int) int {
 						errk = "panic"
 					}
 				}()
+				to := to
+				if zero && a%2 == 1 {
+					to = -time.Duration(a) * time.Millisecond
+				}
 				v, err := fpgo.AskNewGenerics[int, int](msg).AskOnceWithTimeout(actor, to)
 				val = v
 				if err == fpgo.ErrActorAskTimeout {
@@ -240,7 +249,10 @@ func c13Boundary(w *ndWriter, askers int) int {
 			rec.ev(E{"ev": "res", "req": askers + a, "val": val, "err": errk})
 		}()
 	}
-	wg.Wait()
+	// bounded: an ask whose Send blocks for ever on an actor stuck in an earlier Reply never returns - its missing "res" line is the verdict
+	if !waitBounded(&wg, 8*time.Second) {
+		c13Dead++
+	}
 	time.Sleep(3 * time.Millisecond) // late replies (and anything a timer goroutine does) happen now
 	rec.ev(E{"ev": "probe", "ok": true})
 	return rec.flush(w)
@@ -310,7 +322,9 @@ func c13ReAsk(w *ndWriter, goroutines, times int) int {
 			}
 		}(g)
 	}
-	wg.Wait()
+	if !waitBounded(&wg, 8*time.Second) { // an ask that never returns is a line that is missing, not a hang of the recording
+		c13Dead++
+	}
 	rec.ev(E{"ev": "probe", "ok": true})
 	return rec.flush(w)
 }
@@ -343,7 +357,9 @@ func c13Main(args []string) error {
 			runs++
 		}
 		for r := 0; r < 3+rounds/10 && c13Dead < 3; r++ {
-			n += c13Boundary(w, 48)
+			n += c13Boundary(w, 48, false)
+			n += c13Boundary(w, 6, true)
+			runs++
 			n += c13ReAsk(w, 1+r%8, 4)
 			runs += 2
 		}
